@@ -81,9 +81,10 @@ type MapV struct {
 }
 
 type ChanV struct {
-	Nil bool
-	Buf []Value
-	Cap int
+	Nil    bool
+	Buf    []Value
+	Cap    int
+	Closed bool
 }
 
 type TupleV []Value
